@@ -331,6 +331,19 @@ func (ex *Exec) vstrEqual(v *VStr, y Value) Value {
 				return true
 			}
 		}
+		if v.sel.bits == y.sel.bits && len(v.table) == len(y.table) {
+			sameTable := true
+			for i := range v.table {
+				if v.table[i] != y.table[i] {
+					sameTable = false
+					break
+				}
+			}
+			if sameTable {
+				// equal strings <=> equal class of the selector, where entries with the same text form one class
+				return ex.simp(ts.Eq(ex.vstrClass(v), ex.vstrClass(y)))
+			}
+		}
 		r := ts.ff
 		for i, a := range v.table {
 			for j, b := range y.table {
@@ -362,6 +375,30 @@ func (ex *Exec) vstrEqual(v *VStr, y Value) Value {
 		return r
 	}
 	panic(ex.unsupported(fmt.Sprintf("vstr equality with %T", y)))
+}
+
+// vstrClass maps the selector to a representative index of its text (duplicates share one).
+func (ex *Exec) vstrClass(v *VStr) *Term {
+	ts := ex.ts
+	first := map[string]int{}
+	groups := map[int][]int{}
+	var order []int
+	for i, e := range v.table {
+		if f, ok := first[e]; ok {
+			if len(groups[f]) == 0 {
+				order = append(order, f)
+				groups[f] = []int{f}
+			}
+			groups[f] = append(groups[f], i)
+		} else {
+			first[e] = i
+		}
+	}
+	t := v.sel
+	for _, f := range order {
+		t = ts.Ite(ex.selIn(v.sel, groups[f]), ts.Const(uint64(f), v.sel.bits), t)
+	}
+	return t
 }
 
 func (ex *Exec) strCompare(op token.Token, x, y Value) Value {
